@@ -28,7 +28,9 @@ type Ctx struct {
 	Files  []*ast.File
 	// fieldBufBad caches fieldBufferBad (escape rule)
 	fieldBufBad map[*types.Var]string
-	Meta        *metaSchemas
+	// simIdx caches, per function, which index expressions the effect normal form proves in range
+	simIdx map[*ast.FuncDecl]map[*ast.IndexExpr]bool
+	Meta   *metaSchemas
 
 	decls    map[*types.Func]*ast.FuncDecl
 	obs      []*Obligation
